@@ -198,14 +198,16 @@ func (p *Conn) checkProxyHeader() error {
 
 	// initial real src/dst address
 	p.srcAddr, err = proxyTCPAddr(hdr.TransportProtocol, hdr.SourceAddress, hdr.SourcePort)
-	if err != nil { /* never go here */
+	if err != nil { /* unsupported family (UDP, UNIX) or unusable address */
 		p.Close()
+		p.headerErr = err
 		return err
 	}
 
 	p.dstAddr, err = proxyTCPAddr(hdr.TransportProtocol, hdr.DestinationAddress, hdr.DestinationPort)
-	if err != nil { /* never go here */
+	if err != nil { /* unsupported family (UDP, UNIX) or unusable address */
 		p.Close()
+		p.headerErr = err
 		return err
 	}
 
